@@ -2,6 +2,7 @@
 (C01 fair comparison, C02 gather by own coordinates, C03 obs range, C04 validity mask, C14 climatology,
 C18 history independence), EXT obligations, and bounded stand-ins for _get_common_indices and __init__."""
 import itertools
+import os
 
 import numpy as _np
 
@@ -647,6 +648,165 @@ for _n in (1, 2, 3):
                                  "optional user list from {0,1,2,5}: exhaustive where the grid is below the budget, seeded random sample beyond" % _n,
                            sizes=(1, 2, 3), budget=30000, thorough_budget=400000, vary_axes=True,
                            functions=["verif.data.Data._get_common_indices"])
+
+
+def _common_indices_proof(n_inputs, axis_kind, with_aux):
+    """deductive: coordinate vectors of ANY length (finite or NaN values), N inputs; np.sort / np.unique / np.intersect1d /
+    np.isin by their assumed contracts (pyvc/setarr.py), everything else is the real function"""
+    import z3
+    from pyvc import setarr
+    axis = {"time": verif.axis.Time, "leadtime": verif.axis.Leadtime}[axis_kind]()
+    bounded_setup, _, bounded_post = _common_indices(n_inputs, axis_kind)
+
+    def setup(G):
+        vals = [G.array("v%d" % i, ("a%d" % i,), kinds=(FIN, NAN), grid=[0.0, 1.0, 2.0, 3.0]) for i in range(n_inputs)]
+        b = Bag(vals=vals, use_aux=with_aux)
+        b.aux = G.array("aux", ("ax",), kinds=(FIN, NAN), grid=[0.0, 1.0, 2.0, 5.0]) if with_aux else None
+        return b
+
+    def call(inp):
+        if hasattr(inp.vals[0], "axes"):
+            sym.CTX.set_theory = True
+        inputs = [_AxisInput("in%d" % i, v, axis_kind) for i, v in enumerate(inp.vals)]
+        return verif.data.Data._get_common_indices(inputs, axis, inp.aux if with_aux else None)
+
+    def post(S, inp, out):
+        if not S.symbolic:
+            return bounded_post(S, inp, out)
+        CTX = sym.CTX
+        E = sym._elem_num
+        # ghost: the array of common values is the set-like array whose positions the index lists are indexed by
+        sets = CTX.ghost.get("setarrs", [])
+        mine = [r for r in sets if len(out) and isinstance(out[0], sym.SArr) and r.axes[0] is out[0].axes[0]]
+        if not sets:
+            raise sym.Unsupported("no set-like array was built (decided on concrete inputs instead)")
+        avail = mine[-1] if mine else sets[-1]
+        ax = avail.axes[0]
+        ag = avail._snapshot()
+        goals = [("one-index-list-per-input-in-input-order", len(out) == n_inputs)]
+        if len(out) != n_inputs:
+            return goals
+        # the contract speaks about entry k of each list through the generic index of the loop that wrote it
+        loops = [(k, lo, hi) for (k, lo, hi) in CTX.loops]
+        if len(loops) != n_inputs or not all(isinstance(II, sym.SArr) and len(II.axes) == 1 and II.sel is None for II in out):
+            raise sym.Unsupported("the index lists were not written by one look-up loop per input (decided on concrete inputs instead)")
+        for i in range(n_inputs):
+            k, lo, hi = loops[i]
+            goals.append(("input-%d:list-has-one-entry-per-common-value" % i,
+                          z3.And(out[i].axes[0].size.v == ax.size.v, sym.toz(lo, "int") == 0, sym.toz(hi, "int") == ax.size.v)))
+            if k is None:
+                continue                       # no common value on this path: the index list is empty
+            tg = inp.vals[i]._snapshot()
+            tax = inp.vals[i].axes[0]
+            pos = sym._toint(E(out[i]._snapshot()((k,))).v)
+            v = E(ag((k,)))
+            at = E(tg((pos,)))
+            goals.append(("input-%d:entry-k-points-at-the-k-th-common-value" % i,
+                          z3.And(pos >= 0, pos < tax.size.v, sym.bz(at.isfin()), at.rv() == v.rv())))
+            j = tax.fresh_index("j")
+            ej = E(tg((j,)))
+            goals.append(("input-%d:first-occurrence-of-a-repeated-coordinate" % i,
+                          z3.Implies(z3.And(sym.rng((j,)), j < pos), z3.Not(z3.And(sym.bz(ej.isfin()), ej.rv() == v.rv())))))
+        k1, k2 = ax.fresh_index("k"), ax.fresh_index("k")
+        e1, e2 = E(ag((k1,))), E(ag((k2,)))
+        goals.append(("common-values-ascending,distinct,no-missing",
+                      z3.Implies(z3.And(sym.rng((k1,)), sym.rng((k2,)), k1 < k2),
+                                 z3.And(sym.bz(e1.isfin()), sym.bz(e2.isfin()), e1.rv() < e2.rv()))))
+        # every common value occurs in every input and in the user's list
+        srcs = list(inp.vals) + ([inp.aux] if with_aux else [])
+        for n, arr in enumerate(srcs):
+            raw = setarr._raws_of(arr)[0]
+            raw.demand(e1.rv())
+            w = raw.wit(e1.rv())
+            ew = E(arr._snapshot()((w,)))
+            goals.append(("common-value-occurs-in-%s" % ("input-%d" % n if n < n_inputs else "the-user's-list"),
+                          z3.Implies(sym.rng((k1,)), z3.And(w >= 0, w < arr.axes[0].size.v, sym.bz(ew.isfin()), ew.rv() == e1.rv()))))
+        # completeness: a non-missing value present in every input (and in the user's list) is a common value
+        js = [arr.axes[0].fresh_index("c") for arr in srcs]
+        es = [E(arr._snapshot()((j,))) for arr, j in zip(srcs, js)]
+        v = es[0].rv()
+        prem = z3.And(*([sym.rng((j,)) for j in js] + [sym.bz(e.isfin()) for e in es] + [e.rv() == v for e in es[1:]]))
+        w = setarr.demand_any(avail, v)
+        goals.append(("every-value-present-in-all-inputs-and-the-user's-list-is-a-common-value",
+                      z3.Implies(prem, z3.And(w >= 0, w < ax.size.v, E(ag((w,))).rv() == v))))
+        return goals
+
+    def canary(S, inp, out):
+        """a deliberately wrong contract (the entry is the LAST occurrence; common values may repeat): must be refuted"""
+        CTX = sym.CTX
+        E = sym._elem_num
+        loops = list(CTX.loops)
+        if not loops or loops[0][0] is None or not isinstance(out[0], sym.SArr):
+            raise sym.Unsupported("no look-up loop on this path")
+        k = loops[0][0]
+        avail = [r for r in CTX.ghost["setarrs"] if r.axes[0] is out[0].axes[0]][-1]
+        tg, tax = inp.vals[0]._snapshot(), inp.vals[0].axes[0]
+        pos = sym._toint(E(out[0]._snapshot()((k,))).v)
+        v = E(avail._snapshot()((k,)))
+        j = tax.fresh_index("j")
+        ej = E(tg((j,)))
+        return [("last-occurrence", z3.Implies(z3.And(sym.rng((j,)), j > pos), z3.Not(z3.And(sym.bz(ej.isfin()), ej.rv() == v.rv()))))]
+    return setup, call, post, canary
+
+
+for _n in (1, 2, 3):
+    for _ak in ("time", "leadtime"):
+        for _aux in (False, True):
+            if _n == 3 and _ak != "time":
+                continue
+            s, c, p, _cn = _common_indices_proof(_n, _ak, _aux)
+            register(Obligation("verif.data.Data._get_common_indices#POST:N=%d,%s,%s" % (_n, _ak, "with-user-list" if _aux else "no-user-list"),
+                                ("C02", "C03", "C01", "C14"), s, c, p, modules=MOD, canary=_cn, functions=["verif.data.Data._get_common_indices"],
+                                assumptions=["numpy: np.sort, np.unique, np.intersect1d, np.isin on one-dimensional arrays of finite or NaN values "
+                                             "(contracts in pyvc/setarr.py; checked on concrete arrays by numpy.set-routines#EXT)"],
+                                doc="coordinate vectors of any length; values finite or NaN"))
+
+
+def _numpy_set_routines():
+    """the assumed contracts of pyvc/setarr.py, checked against the installed NumPy on sample arrays (finite or NaN values)"""
+    def body():
+        import random
+        rnd = random.Random(int(os.environ.get("VERIF_SEED", "0")))
+        nan = float("nan")
+        cases = 0
+
+        def members(a):
+            return set(float(x) for x in a if x == x)
+
+        def ascending(r, strict):
+            fin = [x for x in r if x == x]
+            nan_last = all(not (r[i] != r[i]) or (r[i + 1] != r[i + 1]) for i in range(len(r) - 1))
+            return nan_last and all((a < b) if strict else (a <= b) for a, b in zip(fin, fin[1:]))
+        pool = [0.0, 1.0, 2.0, 3.0, -1.5, 1e9, nan]
+        for rep in range(4000):
+            a = _np.array([rnd.choice(pool) for _ in range(rnd.randint(0, 6))], float)
+            b = _np.array([rnd.choice(pool) for _ in range(rnd.randint(0, 6))], float)
+            cases += 1
+            s_ = _np.sort(a)
+            u = _np.unique(a)
+            us = _np.unique(s_)
+            it = _np.intersect1d(a, b)
+            iu = _np.intersect1d(u, _np.unique(b))
+            isin = _np.isin(a, u[u == u])
+            ok = {"sort": len(s_) == len(a) and ascending(s_, False) and members(s_) == members(a) and sum(x != x for x in s_) == sum(x != x for x in a),
+                  "unique": len(u) <= len(a) and (len(a) == 0 or len(u) >= 1) and ascending(u, True) and members(u) == members(a),
+                  "unique-of-sorted": list(map(repr, us)) == list(map(repr, u)),
+                  "intersect1d": ascending(it, True) and not any(x != x for x in it) and members(it) == members(a) & members(b) and len(it) <= min(len(a), len(b)),
+                  "intersect1d-of-unique": list(iu) == list(it),
+                  "sort-of-ascending-is-identity": list(map(repr, _np.sort(u))) == list(map(repr, u)) and list(_np.sort(it)) == list(it),
+                  "drop-nan-is-finite-prefix": list(u[_np.isnan(u) == 0]) == list(u[:int(sum(x == x for x in u))]),
+                  "isin": [bool(x) for x in isin] == [(x == x) and (float(x) in members(a)) for x in a]}
+            bad = [k for k, v in ok.items() if not v]
+            if bad:
+                return cases, {"a": a.tolist(), "b": b.tolist(), "violated": bad}
+        return cases, None
+    return body
+
+
+from .axis import _enumerated as _enum_sets
+_enum_sets("numpy.set-routines#EXT:assumed-contracts-of-sort,unique,intersect1d,isin-hold-on-sample-arrays", ("C02", "C03", "C01", "C14"),
+           "4000 seeded random pairs of arrays of length 0..6 over {0,1,2,3,-1.5,1e9,NaN}", _numpy_set_routines(),
+           ["numpy.sort", "numpy.unique", "numpy.intersect1d", "numpy.isin"])
 
 
 def _init_spec(inp):
